@@ -18,6 +18,7 @@ import (
 	"strconv"
 	"strings"
 	"sync"
+	"sync/atomic"
 	"syscall"
 	"testing"
 	"time"
@@ -237,6 +238,9 @@ func (r *vResult) violate(rule, shape, what string, witness interface{}) {
 		r.Violations = append(r.Violations, vViolation{Rule: rule, Shape: shape, What: what, Case: r.curCase, Witness: witness})
 	}
 	r.mu.Unlock()
+	if strings.HasSuffix(rule, ".WEDGE") {
+		atomic.StoreInt32(&vWedged, 1)
+	}
 	fmt.Fprintf(os.Stderr, "VERIF-VIOLATION %s %s shape=%s: %s\n", r.Property, rule, shape, what)
 }
 
@@ -320,6 +324,15 @@ func vRSSMB() int {
 
 func (r *vResult) finish(t *testing.T) {
 	if x := recover(); x != nil {
+		if _, stop := x.(vStopRun); stop {
+			// a wedge was witnessed: every further case of this child would only wait behind it
+			r.mu.Lock()
+			r.Done = true
+			r.mu.Unlock()
+			r.flush()
+			t.Logf("%s: run ended after a wedge witness (%d violation(s))", r.Property, r.nViol())
+			return
+		}
 		y, ok := x.(vYield)
 		if !ok {
 			panic(x)
@@ -349,7 +362,15 @@ var vJournalFile *os.File
 
 var vLastFlush time.Time
 
+// vStopRun ends the run of this child at the next case boundary (see finish).
+type vStopRun struct{}
+
+var vWedged int32
+
 func (r *vResult) begin(idx int, desc string, input interface{}) {
+	if atomic.LoadInt32(&vWedged) != 0 {
+		panic(vStopRun{})
+	}
 	if idx < vMaxIdx {
 		vMonotonic = false
 	}
